@@ -79,6 +79,37 @@ func genC02(g *gen) {
 		maxd = 4
 	}
 	srcs := []string{"C", "Fraw", "Fconv"}
+	// Narrow (method and package function) = Slice with leading nil slices: every axis incl. negative and wrapped
+	// ones, windows inside, touching and beyond the extent, on plain, column-major, transposed and sliced sources
+	for _, sh := range [][]int{{4}, {3, 4}, {2, 3, 4}, {1, 3}, {3, 1}} {
+		for dim := -len(sh) - 1; dim <= len(sh)+1; dim++ {
+			for _, sl := range [][2]int{{0, 1}, {1, 2}, {0, 3}, {2, 2}, {1, 0}, {-1, 2}, {3, 3}} {
+				for k, src := range []string{"C", "Fraw", "T", "sliced"} {
+					if !g.thorough() && (dim+sl[0]+sl[1]+k+len(sh))%2 != 0 {
+						continue
+					}
+					via := []string{"fn", "meth"}[(dim+sl[0]+k+8)%2]
+					switch src {
+					case "T":
+						if len(sh) < 2 {
+							continue
+						}
+						g.emit(fmt.Sprintf("new i16 %s C", ints(sh)), "T $0 -", fmt.Sprintf("narrow $0 %d %d %d %s", dim, sl[0], sl[1], via), "dump $1", "dump $0")
+					case "sliced":
+						spec := make([]string, len(sh))
+						big := make([]int, len(sh))
+						for i, d := range sh {
+							big[i] = d + 1
+							spec[i] = fmt.Sprintf("1:%d", d+1)
+						}
+						g.emit(fmt.Sprintf("new i16 %s C", ints(big)), "slice $0 "+strings.Join(spec, ","), fmt.Sprintf("narrow $1 %d %d %d %s", dim, sl[0], sl[1], via), "dump $2", "dump $0")
+					default:
+						g.emit(fmt.Sprintf("new i16 %s %s", ints(sh), src), fmt.Sprintf("narrow $0 %d %d %d %s", dim, sl[0], sl[1], via), "dump $1")
+					}
+				}
+			}
+		}
+	}
 	// rank 1: complete space, all sources
 	for d := 1; d <= maxd+1; d++ {
 		for _, a := range fullAxisSpace(d) {
@@ -107,7 +138,7 @@ func genC02(g *gen) {
 					// the sub-array as a value: a materialised copy of the view (the path that trusts the view's
 					// contiguity flag) must hold the same elements
 					if (i+j)%2 == 0 && !emptyRange(a) && !emptyRange(b) {
-						steps = append(steps, "mat $1", "dump $2")
+						steps = append(steps, []string{"mat $1", "apimat $1"}[(i+j)%2], "dump $2")
 					}
 					g.emit(steps...)
 				}
@@ -229,6 +260,7 @@ func genC03(g *gen) {
 	shs := shapes(0, maxRank, dimsets[0])
 	shs = append(shs, []int{2, 2, 2}, []int{2, 2, 2, 2}, []int{2, 3, 2, 3}, []int{2, 1, 3, 2}, []int{2, 3, 2, 1, 2}, []int{2, 2, 2, 2, 2}, []int{1, 2, 1, 3, 1})
 	srcs := []string{"C", "Fraw", "Fconv", "sliced"}
+	g.rollMatrix()
 	for si, sh := range shs {
 		ps := perms(len(sh))
 		for pi, p := range ps {
@@ -264,8 +296,30 @@ func genC03(g *gen) {
 					vs := fmt.Sprintf("$%d", v)
 					steps = append(steps, fmt.Sprintf("T %s %s", vs, ints(p)), "dump "+vs, "iter "+vs+" N")
 					// a random continuation
+					nv := v + 1
 					for k := 0; k < seqLen; k++ {
-						switch g.r.intn(5) {
+						switch g.r.intn(10) {
+						case 5, 6, 7:
+							// the copying transposes: the method, the package function, the package function that
+							// also moves the data; the copy is observed, undone, observed again
+							kw := []string{"safeT", "apiT", "apiTranspose"}[g.r.intn(3)]
+							ax := ints(g.randPerm(len(sh)))
+							if g.r.chance(1, 4) {
+								ax = "-"
+							}
+							steps = append(steps, fmt.Sprintf("%s %s %s", kw, vs, ax), fmt.Sprintf("dump $%d", nv), fmt.Sprintf("iter $%d N", nv),
+								fmt.Sprintf("UT $%d", nv), fmt.Sprintf("dump $%d", nv))
+							nv++
+						case 8, 9:
+							if len(sh) == 0 {
+								continue
+							}
+							safe := g.r.intn(2)
+							steps = append(steps, fmt.Sprintf("roll %s %d %d %d", vs, g.r.intn(len(sh)), g.r.intn(len(sh)+1), safe), fmt.Sprintf("dump $%d", nv))
+							if safe == 1 {
+								steps = append(steps, fmt.Sprintf("UT $%d", nv), fmt.Sprintf("dump $%d", nv))
+							}
+							nv++
 						case 0:
 							steps = append(steps, "UT "+vs)
 						case 1:
@@ -283,6 +337,54 @@ func genC03(g *gen) {
 						}
 					}
 					g.emit(steps...)
+				}
+			}
+		}
+	}
+}
+
+// rollMatrix: RollAxis for every (axis, start) pair including the refused ones, safe and in place, on every source
+// kind; the result, the source and the state after undoing are observed.
+func (g *gen) rollMatrix() {
+	shs := [][]int{{3}, {2, 3}, {3, 1}, {1, 3}, {2, 3, 2}, {2, 1, 3}, {2, 3, 2, 2}, {1, 2, 1, 3}}
+	for _, sh := range shs {
+		for _, src := range []string{"C", "Fraw", "sliced", "lazyT"} {
+			for axis := -1; axis <= len(sh); axis++ {
+				for start := -1; start <= len(sh)+1; start++ {
+					for safe := 0; safe <= 1; safe++ {
+						if !g.thorough() && len(sh) == 4 && (axis+start+safe)%2 != 0 {
+							continue
+						}
+						var steps []string
+						v := 0
+						switch src {
+						case "sliced":
+							big := make([]int, len(sh))
+							spec := make([]string, len(sh))
+							for i, d := range sh {
+								big[i] = d + 1
+								spec[i] = fmt.Sprintf("1:%d", d+1)
+							}
+							steps = []string{fmt.Sprintf("new i32 %s C", ints(big)), "slice $0 " + strings.Join(spec, ",")}
+							v = 1
+						case "lazyT":
+							if len(sh) < 2 {
+								continue
+							}
+							p := g.randPerm(len(sh))
+							srcSh := make([]int, len(sh))
+							for i, a := range p {
+								srcSh[a] = sh[i]
+							}
+							steps = []string{fmt.Sprintf("new i32 %s C", ints(srcSh)), fmt.Sprintf("T $0 %s", ints(p))}
+						default:
+							steps = []string{fmt.Sprintf("new i32 %s %s", ints(sh), src)}
+						}
+						r := v + 1
+						steps = append(steps, fmt.Sprintf("roll $%d %d %d %d", v, axis, start, safe), fmt.Sprintf("dump $%d", r), fmt.Sprintf("dump $%d", v),
+							fmt.Sprintf("iter $%d N", r), fmt.Sprintf("UT $%d", r), fmt.Sprintf("dump $%d", r), "dump $0")
+						g.emit(steps...)
+					}
 				}
 			}
 		}
@@ -433,7 +535,7 @@ func genC04(g *gen) {
 			steps = append(steps, "clone "+vs, fmt.Sprintf("memset $%d", nv), "dump "+vs, "memset "+vs, fmt.Sprintf("dump $%d", nv))
 			nv++
 		case 5:
-			steps = append(steps, "mat "+vs, fmt.Sprintf("dump $%d", nv), fmt.Sprintf("zero $%d", nv))
+			steps = append(steps, g.r.pick([]string{"mat ", "apimat "})+vs, fmt.Sprintf("dump $%d", nv), fmt.Sprintf("zero $%d", nv))
 			nv++
 		case 6:
 			steps = append(steps, fmt.Sprintf("safeT %s -", vs), fmt.Sprintf("dump $%d", nv), fmt.Sprintf("memset $%d", nv))
